@@ -167,6 +167,13 @@ def _ch_insert(L):
     L.set('ridx', e.concat(L._st, e.list_of(L._st, [VInt(new)]), L.raw('ridx')))
 
 
+def _diag_key(seg):
+    """the statement's diagonal order, written from the statement (not taken from the code's sort key): reference + query coordinate of the first and of the last pair"""
+    a = seg.alignedPositions
+    first, last = a[0], a[a.len - 1]
+    return first.reference.position + last.reference.position + first.query.position + last.query.position
+
+
 CHSRC = z3.Function('chain_source_index', z3.ArraySort(z3.IntSort(), Ref), z3.ArraySort(z3.IntSort(), Ref), z3.IntSort(), z3.IntSort(), z3.IntSort())
 
 
@@ -209,6 +216,8 @@ def _ch_ensures(C, res):
         ('chain_members_are_distinct_segments_in_diagonal_order', z3.And(
             forall(t, z3.Implies(rng(0, t, m), z3.And(0 <= ridx[t], ridx[t] < n, res.raw(t).t == pre.raw(ridx[t]).t)), [ridx[t]]),
             forall([t, t2], z3.Implies(z3.And(0 <= t, t < t2, t2 < m), ridx[t] < ridx[t2]), [MP(ridx[t], ridx[t2])]))),
+        ('chain_members_follow_the_diagonal_order_first_plus_last_pair_coordinates_on_both_maps_never_decrease',
+         forall(t, z3.Implies(z3.And(1 <= t, t < m), _diag_key(pre[ridx[t - 1]]) <= _diag_key(pre[ridx[t]])), [ridx[t]])),
         ('consecutive_members_are_never_joined_by_minus_infinity',
          forall(t, z3.Implies(z3.And(1 <= t, t < m), z3.Not(jn(ridx[t - 1], ridx[t]))), [ridx[t]])),
         ('chain_total_is_finite_and_equals_best_cumulated_score', z3.And(F_.tot == cum[b0].v, z3.Not(cum[b0].ninf))),
